@@ -38,7 +38,7 @@ func (impl Implementation) Dgesv(n, nrhs int, a []float64, lda int, ipiv []int, 
 	}
 
 	// Quick return if possible.
-	if n == 0 || nrhs == 0 {
+	if n == 0 {
 		return true
 	}
 
@@ -47,7 +47,7 @@ func (impl Implementation) Dgesv(n, nrhs int, a []float64, lda int, ipiv []int, 
 		panic(shortAB)
 	case len(ipiv) != n:
 		panic(badLenIpiv)
-	case len(b) < (n-1)*ldb+nrhs:
+	case nrhs > 0 && len(b) < (n-1)*ldb+nrhs:
 		panic(shortB)
 	}
 
